@@ -185,6 +185,12 @@ def program(plan, method, stream, lim, fin, seg, rnd, cancel=None, reqhdrs=None,
         L.append("txcount %d" % rnd.choice([0, 1, 2, 3]))
         if rnd.random() < 0.5:
             L.append("early 1")
+    # properties of the calling process that are none of the response's business: warnings sent to syslog; a callback that, having
+    # released the body, returns an error of its own
+    if rnd.random() < 0.2:
+        L.append("syslog")
+    if rnd.random() < 0.15:
+        L.append("cbrc %d" % rnd.choice([-1, 1, 7]))
     if cancel is not None:
         L.append("cancel %d" % cancel)
     if fail:
@@ -264,7 +270,8 @@ def hostile(rnd, seed):
         st = rnd.choice([b"99", b"600", b"1000", b"-200", b"2147483648", b"abc", b"200abc", b""])
         stream = b"HTTP/" + rnd.choice([b"1.1", b"2.0", b"1", b"x.y", b"1.1"]) + b" " + st + b" X\r\nContent-Length: 0\r\n\r\n"
     else:  # clen
-        cl = rnd.choice([b"-1", b"abc", b"18446744073709551616", b"18446744073709551615", b" 5", b"5 ", b"0x5", b"+5", b""])
+        cl = rnd.choice([b"-1", b"abc", b"18446744073709551616", b"18446744073709551615", b" 5", b"5 ", b"0x5", b"+5", b"",
+                         b"9" * 4000, b"9" * 4080, b"1" * 20000, b"7" * 60000, b"x" * 4200])
         stream = head + b"Content-Length: " + cl + b"\r\n\r\n" + body
     fin = rnd.choice(["E", "E", "X", "none"])
     plan = {"kind": "hostile", "mutation": kind, "maxrlen": lim, "complete": False, "ends": fin != "none"}
